@@ -21,6 +21,21 @@ from . import gates
 from .qcircuit import QCircuit
 
 
+def _is_self_inverse(gate: gates.QGate) -> bool:
+    """True if applying the gate twice on the same qubits is the identity"""
+    if isinstance(gate, gates.QControlledGate):
+        gate = gate.gate
+    return isinstance(
+        gate,
+        (gates.I, gates.X, gates.Y, gates.Z, gates.H, gates.Swap, gates.NopGate),
+    )
+
+
+def _cancels(a: gates.AppliedGate, b: gates.AppliedGate) -> bool:
+    """True if the applied gates a and b, one after the other, are the identity"""
+    return a == b and _is_self_inverse(a[0])
+
+
 class QCircuitEnhanced(QCircuit):
     def __init__(self, num_qubits=0, name="qc", native=None):
         super().__init__(num_qubits, name, native)
@@ -62,13 +77,13 @@ class QCircuitEnhanced(QCircuit):
         i = 0
         len_g = len(self.gates)  # type: ignore
         while i < len_g:
-            if i < (len_g - 1) and self.gates[i] == self.gates[i + 1]:  # type: ignore
+            if i < (len_g - 1) and _cancels(self.gates[i], self.gates[i + 1]):  # type: ignore
                 if result and isinstance(result[-1][0], gates.Barrier):
                     result.pop()
                 i += 2
             elif (
                 i < (len_g - 2)
-                and self.gates[i] == self.gates[i + 2]  # type: ignore
+                and _cancels(self.gates[i], self.gates[i + 2])  # type: ignore
                 and isinstance(self.gates[i + 1][0], gates.Barrier)  # type: ignore
             ):
                 if result and isinstance(result[-1][0], gates.Barrier):
